@@ -269,6 +269,10 @@ func (c *Ctx) sel(arr, idx string) string {
 			}
 		} else if strings.HasPrefix(d, "(ite ") {
 			// do not expand
+		} else if d != a && len(d) > 0 && d[0] != '(' {
+			// a bound alias of another array constant
+			a = d
+			continue
 		}
 		break
 	}
